@@ -15,7 +15,7 @@ import sys
 from typing import List
 
 from twisted.internet.defer import Deferred
-from twisted.internet.error import ConnectionDone
+from twisted.internet.error import ConnectionDone, ConnectionLost
 from twisted.protocols import amp
 from twisted.python.failure import Failure
 
@@ -31,10 +31,12 @@ ENCODED = ["twisted.protocols.amp:BoxDispatcher._sendBoxCommand", "twisted.proto
            "twisted.protocols.amp:Command._doCommand", "twisted.protocols.amp:CommandLocator._wrapWithSerialization",
            "twisted.protocols.amp:BinaryBoxProtocol.connectionLost", "twisted.protocols.amp:BinaryBoxProtocol.sendBox",
            "twisted.protocols.amp:AMP.connectionLost", "twisted.protocols.amp:QuitBox._sendTo"]
-BOUNDS = {"quick": {"len": 6, "calls": 3, "bkinds": 2, "chains": 1, "ckinds": 4, "bckinds": 0, "bsub": 0, "subany": 0},
-          "thorough": {"len": 8, "calls": 3, "bkinds": 4, "chains": 1, "ckinds": 4, "bckinds": 2, "bsub": 1, "subany": 1}}
+BOUNDS = {"quick": {"len": 6, "calls": 3, "bkinds": 2, "chains": 1, "ckinds": 4, "bckinds": 0, "bsub": 0, "subany": 0, "mid": 2},
+          "thorough": {"len": 8, "calls": 3, "bkinds": 4, "chains": 1, "ckinds": 4, "bckinds": 2, "bsub": 1, "subany": 1, "mid": 4}}
 B = {}
-BOUNDS_TEXT = ("every schedule of <= len steps with <= calls callRemote invocations in total; the first call is "
+BOUNDS_TEXT = ("midbox: every history of <= mid steps over {A calls now, A calls later, B calls now, deliver A->B, "
+               "deliver B->A}, then the connection is lost after EVERY proper byte prefix (offset 0 .. len-1) of the "
+               "next box in either direction, with reason ConnectionDone or ConnectionLost; schedule: every schedule of <= len steps with <= calls callRemote invocations in total; the first call is "
                "A's (A and B are the same class: symmetry); A's commands have all 4 responder behaviours (answer now, "
                "answer later or never, declared error, undeclared error), B's the first `bkinds` of them; at most "
                "`chains` CHAINED call per schedule (A: first `ckinds` behaviours, B: first `bckinds`): its result "
@@ -46,7 +48,8 @@ BOUNDS_TEXT = ("every schedule of <= len steps with <= calls callRemote invocati
                "single responder is pending; thorough: anywhere, both peers); a step that is not enabled (empty queue, nothing pending, call "
                "budget used; op code 14 is never enabled) ends the schedule, so the list of exactly `len` step codes "
                "covers all shorter schedules too")
-OUTSIDE = ["byte-level disconnect positions and partial boxes (box-level delivery only; the byte parser is C30)",
+OUTSIDE = ["byte-level disconnect positions after histories longer than `mid` steps or outside the reduced step "
+           "alphabet of the midbox harness (call now / later by A, call now by B, deliveries); the byte parser is C30",
            "more than `calls` commands / longer schedules; responders failing later with an UNdeclared error",
            "symbolic argument values (boxes are concrete: each call carries its own distinct integer tag)",
            "TLS / protocol-switch commands, requiresAnswer=False commands, errors raised by the caller's own "
@@ -159,6 +162,7 @@ class _World:
         for n in ("A", "B"):
             self.peers[n].makeConnection(self.tr[n])
         self.lost = False
+        self.reason = None      # side -> the Failure handed to that side's connectionLost
         self.res = []           # per call: list of observed outcomes
         # reference model
         self.mq = {"A": [], "B": []}   # outgoing model queues: ("req", id, kind) / ("ans"|"decl"|"unk", id)
@@ -194,7 +198,8 @@ class _World:
                 self.res[cid].append(("decl",))
             elif f.check(amp.UnknownRemoteError):
                 self.res[cid].append(("unknown",))
-            elif f.check(ConnectionDone):
+            elif self.reason is not None and f.value is self.reason[side].value:
+                # exactly the reason that was passed to connectionLost (same exception object)
                 self.res[cid].append(("lost",))
             else:
                 self.res[cid].append(("other", f.type.__name__))
@@ -248,10 +253,11 @@ class _World:
             if not self.lost:
                 self.mq[side].append(("decl", cid))
 
-    def lose(self):
+    def lose(self, cls=ConnectionDone):
         self.lost = True            # from here on (i.e. also inside connectionLost) calls must fail at once
+        self.reason = {"A": Failure(cls()), "B": Failure(cls())}
         for n in ("A", "B"):
-            self.peers[n].connectionLost(Failure(ConnectionDone()))
+            self.peers[n].connectionLost(self.reason[n])
             self.tr[n].queue = []
             self.mq[n] = []
         for cid in range(len(self.res)):
@@ -368,13 +374,15 @@ def _step(w, sel):
     return w.agree()
 
 
-def _run(ops):
+def _run(ops, allow=None):
     with _untraced():
         w = _World()
     ncalls = 0
     for o in ops:
         with _untraced():
             en = _enabled(w, ncalls)
+            if allow is not None:
+                en = [c for c in en if c in allow]
         sel = None
         for code in en:
             if o == code:        # the solver picks the step
@@ -392,10 +400,10 @@ def _run(ops):
     return True, w
 
 
-def _final(w):
+def _final(w, cls=ConnectionDone):
     # whatever is still unanswered fails with the connection-loss reason, exactly once
     if not w.lost:
-        w.lose()
+        w.lose(cls)
     if not w.agree():
         return False
     for cid in range(len(w.res)):
@@ -422,6 +430,44 @@ def schedule(ops: List[int]) -> bool:
     cover()
     with _untraced():
         return _final(w)
+
+
+MID_ALLOW = (A_CALL + NOW, A_CALL + LATER, B_CALL + NOW, D_AB, D_BA)
+
+
+def midbox(pre: List[int], ab: bool, cut: int, done: bool) -> bool:
+    """
+    pre: len(pre) <= B['mid'] and all(0 <= o <= 9 for o in pre)
+    pre: 0 <= cut
+    post: _
+    """
+    # connection lost at byte offset `cut` of the incoming stream, i.e. possibly INSIDE a box (after its
+    # first complete key, inside a value, inside the terminator ...): after a short history (steps from
+    # MID_ALLOW), the first `cut` bytes of the next box travelling A->B (or B->A) arrive, then both
+    # sides get connectionLost(reason), reason = ConnectionDone or ConnectionLost.  Every pending call,
+    # and every call made afterwards, must fail exactly once WITH THAT REASON (same exception object).
+    ok, w = _run(pre, allow=MID_ALLOW)
+    if not ok:
+        return False
+    frm, to = ("A", "B") if ab else ("B", "A")
+    n = 0
+    with _untraced():
+        if w.tr[frm].queue:
+            n = len(w.tr[frm].queue[0]) - 1          # proper prefixes only: the box never completes
+    k = 0
+    for i in range(n + 1):                           # one path per byte offset, picked by the solver
+        if cut == i:
+            k = i
+            break
+    else:
+        k = n
+    cover()
+    with _untraced():
+        if k > 0:
+            w.peers[to].dataReceived(w.tr[frm].queue[0][:k])
+            if not w.agree():                        # a partial box delivers nothing
+                return False
+        return _final(w, ConnectionDone if done else ConnectionLost)
 
 
 class _Abs:
@@ -509,11 +555,17 @@ def _shards(tier):
     return sh
 
 
-HARNESSES = [H(schedule, shards=_shards, timeout={"quick": 100, "thorough": 1500})]
+HARNESSES = [H(schedule, shards=_shards, timeout={"quick": 100, "thorough": 1500}),
+             H(midbox, shards=[("ab == True", "done == True"), ("ab == True", "done == False"),
+                               ("ab == False", "done == True"), ("ab == False", "done == False")],
+               timeout={"quick": 100, "thorough": 900})]
 
 VECTORS = {"schedule": [([14],), ([0, 8, 9, 14],), ([1, 0, 8, 8, 9, 10, 9],), ([2, 8, 9, 14],), ([3, 8, 9, 14],),
                         ([1, 8, 13, 10, 14],), ([0, 4, 8, 9, 9, 8],), ([1, 1, 8, 8, 12, 9],), ([0, 13, 0, 14],),
                         ([1, 5, 9, 8, 11, 10],), ([15, 13, 14],), ([15, 8, 9, 8, 9, 14],), ([17, 8, 9, 8, 13, 14],),
                         ([16, 0, 8, 8, 13, 10],), ([18, 8, 9, 4, 9, 13],), ([0, 15, 13, 14],), ([13, 15, 14],),
                         ([23, 8, 9, 14],), ([23, 0, 8, 8, 9, 9],), ([1, 8, 25, 9, 14],), ([1, 0, 8, 8, 25, 9, 9],),
-                        ([23, 1, 8, 8, 9, 10, 9],)]}
+                        ([23, 1, 8, 8, 9, 10, 9],)],
+           "midbox": [([], True, 0, True), ([0], True, 0, True), ([0], True, 9, False), ([0], True, 40, True),
+                      ([0, 4], True, 12, False), ([0, 4], False, 20, True), ([0, 8], False, 11, True),
+                      ([1, 8], False, 3, False), ([1, 0], True, 25, True), ([0, 8, 9, 0], True, 30, False)]}
